@@ -110,8 +110,11 @@ fn gen_typed(rng: &mut Rng, round: u64, txid: &[u8; 12]) -> Vec<String> {
         let (ty, fam) = av::KINDS[k];
         if ty == 0x0008 || ty == 0x001C || ty == 0x8028 { continue }
         let cands = av::gen_specs(rng, round, ty, fam, false);
+        // the implementation under test must not decide which cases are generated: a value it fails to encode (it should not:
+        // the values are within the documented limits) is kept, so that the model and the monitor judge the failure; only
+        // values that DO encode to more than 600 bytes are left out, to keep the messages small
         let ok: Vec<String> = cands.iter().filter_map(|t| match guarded(|| av::build(ty, t)) {
-            Ok(Some(a)) if matches!(av::encode_value(&a, txid, 66000), Ok(Some(ref v)) if v.len() <= 600) => Some(av::render(&a)),
+            Ok(Some(a)) => match av::encode_value(&a, txid, 66000) { Ok(Some(ref v)) if v.len() > 600 => None, _ => Some(av::render(&a)) },
             _ => None }).filter(|r| !r.contains(".s-") && !r.ends_with(":s-") && !r.contains(' ')).collect();
         if ok.is_empty() { continue }
         let tok = rng.pick(&ok).clone();
@@ -195,7 +198,8 @@ fn main() {
         let (method, class) = (rng.below(0x1000) as u16, rng.below(4) as u8);
         let Some(msg) = build_typed(method, class, &txid, &specs) else { continue };
         let mut big = vec![0u8; 70000];
-        let Ok(Ok(need)) = guarded(|| MessageEncoderBuilder::default().build().encode(&mut big, &msg)) else { continue };
+        // the size to sweep up to: what the implementation needs for a zeroed buffer, or 300 when it does not encode at all
+        let need = match guarded(|| MessageEncoderBuilder::default().build().encode(&mut big, &msg)) { Ok(Ok(n)) => n, _ => 300 };
         for buflen in 0..=need + 4 {
             for f in ["r", "0", "255"] {
                 if f != "r" && buflen + 1 < need { continue }
